@@ -145,7 +145,8 @@ def znot(x):
 
 
 class Interp:
-    def __init__(self, interpret_prefixes=("metapype",), unroll=64, bv=None, check_if=True, logic=None, seed=0):
+    def __init__(self, interpret_prefixes=("metapype",), unroll=64, bv=None, check_if=True, logic=None, seed=0,
+                 forking=False, prefix=(), interner=None):
         self.prefixes = interpret_prefixes
         self.unroll = unroll
         self.bv = bv
@@ -157,7 +158,14 @@ class Interp:
         self.sinks = [[]]         # exception sinks; sinks[0] = escaped to top level
         self.frames = []
         self.loops = []
-        self.intern = Interner()
+        self.intern = interner if interner is not None else Interner()
+        # path-wise mode: every symbolic branch is a decision; one run = one path; heap writes are unconditional
+        self.forking = forking
+        self.prefix = list(prefix)
+        self.trace = []
+        self.pending = []
+        self.name_vars = []
+        self.pc = T               # conjunction of the decisions taken (path-wise mode)
         self.solver = z3.SolverFor(logic) if logic else z3.Solver()
         if seed:
             self.solver.set("random_seed", int(seed) % (2 ** 31))
@@ -175,7 +183,55 @@ class Interp:
     # ---------- symbolic inputs
     def name(self, label):
         z = self.mkvar(label)
+        self.name_vars.append(z)
+        self.solver.add(z >= -1)
         return Sym(z, "name")
+
+    def domains(self):
+        """Domain of every symbolic name, to be asserted once the run has interned all program literals."""
+        return zand(*[self.intern.domain(z) for z in self.name_vars])
+
+    def decide(self, c):
+        """Path-wise mode: take one side of a symbolic condition (replaying the prefix first)."""
+        if not z3.is_expr(c):
+            return bool(c)
+        if z3.is_true(c):
+            return True
+        if z3.is_false(c):
+            return False
+        i = len(self.trace)
+        if i < len(self.prefix):
+            b = self.prefix[i]
+        else:
+            ft = self.feasible(zand(self.g, c))
+            ff = self.feasible(zand(self.g, znot(c)))
+            if ft and ff:
+                b = True
+                self.pending.append(list(self.trace) + [False])
+            elif ft:
+                b = True
+            elif ff:
+                b = False
+            else:
+                raise DeadPath()
+        self.trace.append(b)
+        self.tick += 1
+        lit = c if b else znot(c)
+        self.pc = zand(self.pc, lit)
+        self.g = zand(self.g, lit)
+        return b
+
+    def guarded_do(self, cond, fn):
+        """Run fn() under (g and cond); afterwards continue under g (merged) / the decided side (path-wise)."""
+        if self.forking:
+            if self.decide(cond):
+                fn()
+            return
+        saved = self.g
+        self.g = self.gand(saved, cond)
+        if not z3.is_false(self.g) and (not self.check_if or self.feasible(self.g)):
+            fn()
+        self.g = saved
 
     def int_(self, label):
         return Sym(self.mkvar(label), "int")
@@ -212,7 +268,7 @@ class Interp:
 
     def nm(self, z):
         """Name a term by a fresh constant (SSA style) so later formulas stay small."""
-        if z3.is_const(z) or z3.is_int_value(z) or z3.is_bv_value(z):
+        if z3.is_const(z) or z3.is_int_value(z) or z3.is_bv_value(z) or self.forking:
             return z
         self.nfresh += 1
         k = z3.Const("t!%d" % self.nfresh, z.sort())
@@ -246,7 +302,7 @@ class Interp:
 
     def ite(self, g, new, old):
         """Value after a write of `new` under guard g over previous value `old`."""
-        if z3.is_true(g) or old is _UNBOUND:
+        if z3.is_true(g) or old is _UNBOUND or (self.forking and g is self.g):
             return new
         if z3.is_false(g):
             return old
@@ -298,6 +354,10 @@ class Interp:
 
     def raise_under(self, cond, exc):
         """Raise exc under (g and cond); continue under (g and not cond)."""
+        if self.forking:
+            if self.decide(cond):
+                self.raise_(exc)
+            return
         c = self.gand(self.g, cond)
         if (self.feasible(c) if self.check_if else not z3.is_false(c)):
             self.sinks[-1].append((c, exc))
@@ -460,8 +520,8 @@ class Interp:
             return
         if isinstance(t, ast.Name):
             old = fr.locals.get(t.id, _UNBOUND)
-            if self.g is getattr(fr, "entry_g", None):
-                fr.locals[t.id] = v          # no symbolic branching since frame entry
+            if self.forking or self.g is getattr(fr, "entry_g", None):
+                fr.locals[t.id] = v          # no symbolic branching since frame entry (or path-wise mode)
             else:
                 fr.locals[t.id] = self.ite(self.g, v, old)
         elif isinstance(t, ast.Attribute):
@@ -528,6 +588,9 @@ class Interp:
         if not z3.is_expr(c):
             self.exec_block(s.body if c else s.orelse, fr)
             return
+        if self.forking:
+            self.exec_block(s.body if self.decide(z3.simplify(c)) else s.orelse, fr)
+            return
         c = self.nm(z3.simplify(c))
         gT = self.gand(g0, c)
         gE = self.gand(g0, znot(c))
@@ -578,6 +641,17 @@ class Interp:
                     self.g = F
                     break
                 gB = g0
+            elif self.forking:
+                try:
+                    b = self.decide(z3.simplify(c))
+                except DeadPath:
+                    self.g = F
+                    break
+                if not b:
+                    exits.append(self.g)
+                    self.g = F
+                    break
+                gB = self.g
             else:
                 c = self.nm(z3.simplify(c))
                 gB = self.gand(g0, c)
@@ -639,6 +713,13 @@ class Interp:
             if z3.is_false(self.g):
                 break
             g0 = self.g
+            if self.forking:
+                if self.decide(d.present[k]):
+                    self.assign(s.target, k, fr)
+                    lp.continues = []
+                    self.exec_block(s.body, fr)
+                    self.g = zor(self.g, *lp.continues)
+                continue
             self.g = self.gand(g0, d.present[k])
             self.assign(s.target, k, fr)
             lp.continues = []
@@ -749,6 +830,8 @@ class Interp:
 
     def may_mutate(self, obj):
         """In-place mutation is exact iff the object exists only on paths that reach this point."""
+        if self.forking:
+            return True
         b = self.birth.get(id(obj))
         bg = b[1] if b is not None else T
         if bg is self.g or z3.eq(bg, self.g):
@@ -864,6 +947,17 @@ class Interp:
         # short circuit: operand i is evaluated under g0 and "all earlier operands did not decide"
         g0 = self.g
         is_and = isinstance(n.op, ast.And)
+        if self.forking:
+            v = None
+            for k, e in enumerate(n.values):
+                v = self.ev(e, fr)
+                if k == len(n.values) - 1:
+                    return v
+                t = self.truth(v)
+                b = self.decide(z3.simplify(t)) if z3.is_expr(t) else bool(t)
+                if b != is_and:
+                    return v if not z3.is_expr(t) else (not is_and)
+            return v
         live = T
         raised = F
         vals = []
@@ -1046,6 +1140,8 @@ class Interp:
         c = self.truth(self.ev(n.test, fr))
         if not z3.is_expr(c):
             return self.ev(n.body if c else n.orelse, fr)
+        if self.forking:
+            return self.ev(n.body if self.decide(z3.simplify(c)) else n.orelse, fr)
         g0 = self.g
         a, ga = self.ev_guarded(n.body, fr, self.gand(g0, c))
         b, gb = self.ev_guarded(n.orelse, fr, self.gand(g0, znot(c)))
@@ -1184,11 +1280,20 @@ _orig_call = Interp.call
 def _call(self, fn, args, kwargs):
     if isinstance(fn, types.BuiltinMethodType) and fn.__name__ == "index" and isinstance(fn.__self__, list):
         return _stub_list_index(self, fn.__self__, *args)
-    if isinstance(fn, types.BuiltinMethodType) and fn.__name__ == "append" and isinstance(fn.__self__, list):
+    if isinstance(fn, types.BuiltinMethodType) and isinstance(fn.__self__, (list, dict, set)) and \
+            fn.__name__ in ("append", "extend", "insert", "pop", "remove", "clear", "sort", "reverse", "update",
+                            "setdefault", "popitem", "add", "discard"):
         if not self.may_mutate(fn.__self__):
-            raise Unsupported("guarded list.append")
-        fn.__self__.append(args[0])
-        return None
+            raise Unsupported("in-place %s.%s under a symbolic guard" % (type(fn.__self__).__name__, fn.__name__))
+        if fn.__name__ == "remove" and isinstance(fn.__self__, list) and has_sym(args[0]):
+            raise Unsupported("list.remove of a symbolic value")
+        try:
+            return fn(*args, **kwargs)
+        except Unsupported:
+            raise
+        except Exception as e:
+            self.raise_(e)
+            return None
     return _orig_call(self, fn, args, kwargs)
 
 
